@@ -96,6 +96,7 @@ def main(replay=None):
                   op_distribution=dict(topologies=topo, kernels=kdist), measured_rounding_level=stats.get("level", {}),
                   singular_pairs_compared_at_operator_level=stats.get("singular", 0), nearest_triangle_ties=stats.get("nearest_ties", 0),
                   witnesses=stats.get("witnesses", []), kernel_mismatches=kbad, decision_model_correspondence=dm, traces_validated_against_impl=len(recs) + sum(kdist.values()))
+    ck.cov["selfcheck_verdict_flips_not_raised"] = len(hc.SELFCHECK_FLIPS)   # see headcases.compare_decisions
     ck.cov["trusted_base"] += ["extraction (ExtrOcamlBasic only) of Geom/RunC02.v and the OCaml float record, for the decision-model correspondence",
                                "C++ harness harness/h_c02.cpp (calls HeadMat, invert, DipSourceMat, Head2EEGMat, Head2ECoGMat, Head2MEGMat, DipSource2MEGMat, Surf2VolMat, DipSource2InternalPotMat, EITSourceMat, SurfSourceMat, SurfSource2MEGMat and the Gain* classes of the rebuilt working tree)",
                                "Python generators lib/models.py, lib/headcases.py (models written at 17 significant digits)"]
